@@ -748,7 +748,7 @@ LIBYANG_API_DEF uint32_t
 ly_ctx_get_modules_hash(const struct ly_ctx *ctx)
 {
     const struct lys_module *mod;
-    uint32_t i = ly_ctx_internal_modules_count(ctx), hash = 0, fi = 0;
+    uint32_t i = 0, hash = 0, fi = 0;
     struct lysp_feature *f = NULL;
 
     LY_CHECK_ARG_RET(ctx, ctx, 0);
